@@ -31,11 +31,11 @@ from ..traces import validate
 BASE = ('CONSTANTS Fmts = {"zip", "tar", "7z"}\n MemberTypes <- %s\n MaxMembers = %d\n MaxK = %d\n'
         ' Deviations = {%s}\n')
 INVS = ("INVARIANT Inv_Confined\nINVARIANT Inv_Cleanup\nINVARIANT Inv_SkipRules\nINVARIANT Inv_Closed\n"
-        "INVARIANT Inv_Members\nINVARIANT Inv_Isolation\nINVARIANT TypeOK\n")
+        "INVARIANT Inv_Members\nINVARIANT Inv_OwnContent\nINVARIANT Inv_Isolation\nINVARIANT TypeOK\n")
 TRACE_CFG = ('SPECIFICATION TraceSpec\nCONSTRAINT TraceAccept\nCONSTANTS Fmts = {"zip"}\n MemberTypes <- MT_C10\n'
              ' MaxMembers = 0\n MaxK = 0\n Deviations = {}\n Mode = "%s"\n')
 SENS = {"RereadUnchecked": "Inv_Confined / Inv_Closed", "NoCleanupOnEarlyExit": "Inv_Cleanup",
-        "FollowHardlinks": "Inv_SkipRules", "ExtractToCwd": "Inv_Confined", "YieldHidden": "Inv_SkipRules"}
+        "FollowHardlinks": "Inv_SkipRules", "ReadByName": "Inv_SkipRules / Inv_OwnContent", "ExtractToCwd": "Inv_Confined", "YieldHidden": "Inv_SkipRules"}
 
 
 def dump_cases(ctx, universe, max_members, max_k, name):
